@@ -246,6 +246,24 @@ def _case(arg):
                         break
             if not probs:
                 probs += [(cl, f'{path}: {de}') for cl, de in read_checks(c, keys, items)]
+            if not probs and group == 'small':
+                # the same bulk reads through the other internal lookup strategy (ordered full scan of the index), which the
+                # library switches to above 9500 requested keys: force it by lowering the threshold on this handle
+                c._MAX_CHUNK_ITERATE_LENGTH = 1      # pylint: disable=protected-access
+                uniq = dict(zip(keys, items))
+                bulk = c.get_objects_content(list(uniq))
+                metas = dict(c.get_objects_meta(list(uniq)))
+                for k, d_ in uniq.items():
+                    if bulk.get(k) != d_ or k not in metas or metas[k].size != len(d_):
+                        probs.append(('bulk-content-fullscan', f'{path}: full-scan lookup: {len(d_)}-byte item reads as '
+                                                               f'{None if bulk.get(k) is None else len(bulk[k])} bytes, meta size {metas.get(k) and metas[k].size}'))
+                        break
+                with c.get_objects_stream_and_meta(list(uniq)) as trip:
+                    for k, stream, meta in trip:
+                        if stream.read() != uniq[k] or meta.size != len(uniq[k]):
+                            probs.append(('bulk-stream-fullscan', f'{path}: full-scan lookup: stream/meta of a {len(uniq[k])}-byte item differ'))
+                            break
+                del c._MAX_CHUNK_ITERATE_LENGTH
             if not probs:
                 # the same through a fresh handle (nothing cached)
                 c.close()
